@@ -88,22 +88,32 @@ Theorem C16_resolve_covers_dynamic : forall P ops envs served,
 Proof. exact C16_resolve_covers_dynamic_proof. Qed.
 Print Assumptions C16_resolve_covers_dynamic.
 
-(* One primary for all generations: it is chosen by the first flush that is sent, is one of the flushed keys (so the
-   resolve range covers it) and never changes afterwards. If the client disappears before the commit point, whatever
-   subset of the flushed locks exists and in whatever order other clients meet them, nothing is ever committed, the
-   status can only become "rolled back", every lock a resolver meets is removed as rolled back, and no other key is
-   touched (together with C16_flush_error_fails_txn: the primary is committed only after every generation is stored,
-   so no generation is ever partially committed). *)
+(* One primary for all generations: it is chosen by the first flush that writes a lock, is one of the locked keys (so the resolve
+   range covers it) and never changes afterwards. Crash of the client at ANY point: the status on the primary is undecided
+   (any point before the primary commit) or committed at ts (after it). Whatever subset of the flushed locks exists and in whatever
+   order resolvers meet them, every lock is driven to the outcome fixed by that status: all met locks are removed; a key is committed
+   (at ts) only if the primary was committed at ts, rolled back only if it was not; once every lock was met no lock is left and
+   EVERY flushed lock is committed at ts iff the primary was (else every one is rolled back and nothing is committed). The last
+   clause ties "met" to the range resolve under a changing layout: a successful resolved_seq reaches the region of every lock.
+   (That the primary can only be committed after every generation is stored is C16_flush_error_fails_txn.) *)
 Theorem C16_crash_recoverable : forall P ops,
   forallb op_keys_ok ops = true ->
   let s := run P ops in
   (locked_keys s <> [] -> primary s <> [] /\ In (primary s) (locked_keys s) /\ In (primary s) (flushed_keys s)) /\
   (forall ops', primary s <> [] -> primary (run_from P s ops') = primary s) /\
-  (forall locks ks, (forall k, In k locks -> In k (flushed_keys s)) ->
-     let c := crun (crash_state locks) ks in
-     ccommitted c = [] /\ cstat c <> PCommitted /\
-     (forall k, In k locks -> In k ks -> ~ In k (clocks c) /\ In k (crolled c)) /\
-     (forall k, In k (clocks c) -> In k (flushed_keys s))).
+  (forall locks st0 ks, (forall k, In k locks -> In k (flushed_keys s)) ->
+     let c := crun (crash_state locks st0) ks in
+     (forall k ts, In (k, ts) (ccommitted c) -> decide st0 = PCommitted ts) /\
+     (forall k, In k (crolled c) -> forall ts, decide st0 <> PCommitted ts) /\
+     (forall k, In k locks -> In k ks -> ~ In k (clocks c) /\
+        match decide st0 with PCommitted ts => In (k, ts) (ccommitted c) | _ => In k (crolled c) end) /\
+     (forall k, In k (clocks c) -> In k (flushed_keys s)) /\
+     ((forall k, In k locks -> In k ks) ->
+        clocks c = [] /\
+        (forall ts, decide st0 = PCommitted ts -> crolled c = [] /\ forall k, In k locks -> In (k, ts) (ccommitted c)) /\
+        ((forall ts, decide st0 <> PCommitted ts) -> ccommitted c = [] /\ forall k, In k locks -> In k (crolled c))) /\
+     (forall envs served, resolved_seq envs (pstart s) (pend s) = Some served ->
+        forall k, In k locks -> exists r, In r served /\ rcontains r k = true)).
 Proof. exact C16_crash_recoverable_proof. Qed.
 Print Assumptions C16_crash_recoverable.
 
@@ -232,7 +242,9 @@ Proof. vm_compute. repeat split. Qed.
 Example crash_nonvacuous :
   let s := run P0 [OSet k5 v1; OSet k1 v1; OFlush true 0 true; OComplete true; OSet k5 [119]; OFlush true 0 true] in
   primary s = k1 /\ flushed_keys s = [k1; k5; k5] /\
-  clocks (crun (crash_state [k1; k5]) [k5; k1]) = [] /\ crolled (crun (crash_state [k1; k5]) [k5; k1]) = [k1; k5].
+  clocks (crun (crash_state [k1; k5] PUndecided) [k5; k1]) = [] /\ crolled (crun (crash_state [k1; k5] PUndecided) [k5; k1]) = [k1; k5] /\
+  ccommitted (crun (crash_state [k1; k5] (PCommitted 7)) [k5; k1]) = [(k1, 7); (k5, 7)] /\ crolled (crun (crash_state [k1; k5] (PCommitted 7)) [k5]) = [] /\
+  clocks (crun (crash_state [k1; k5] (PCommitted 7)) [k5]) = [k1].
 Proof. vm_compute. repeat split. Qed.
 
 (* the F33 scenario on the model: the FIRST flush fails (keep-alive never started), the latch still holds *)
